@@ -43,6 +43,7 @@ def main():
         print(f"{prop}-{m}: patch does not apply: {a.stdout}")
         return 2
     rc = 0
+    results = []
     try:
         for c in checks:
             p = sh(f"./check {c} --tier {tier}", cwd=f"{ev}/verif")
@@ -54,10 +55,33 @@ def main():
             if p.returncode not in (0, 1):
                 print("\n".join(lines[-15:]))
             rc = rc or (0 if p.returncode == 1 else 1)
+            results.append({"check": c, "tier": tier, "exit": p.returncode, "firsts": firsts,
+                            "summary": lines[-1] if lines else ""})
     finally:
         if "--keep" not in sys.argv:
             sh(f"git -C /repo worktree remove --force {wt}")
             shutil.rmtree(ev, ignore_errors=True)
+    # a provisional meta.json (replaced by eval_mutant.py when the change is evaluated against /repo itself)
+    import json
+    dst = f"/verif/seeded/{prop}-{m}"
+    meta_p = f"{dst}/meta.json"
+    prior = json.load(open(meta_p)) if os.path.exists(meta_p) else None
+    if os.path.isdir(dst) and (prior is None or prior.get("evaluated_in") == "scratch worktree"):
+        confirm = json.load(open(f"{dst}/confirm.json")) if os.path.exists(f"{dst}/confirm.json") else {}
+        readme = open(f"{dst}/README.md").read() if os.path.exists(f"{dst}/README.md") else ""
+        meta = {
+            "id": f"{prop}-{m}",
+            "breaks_property": prop,
+            "origin": "fresh sub-agent given only the property record and a private worktree",
+            "needs_to_manifest": next((l.strip() for l in readme.splitlines() if "rigger" in l or "needs" in l.lower()), ""),
+            "confirmed": confirm,
+            "base_commit": sh("git -C /repo rev-parse --short HEAD").stdout.strip(),
+            "evaluated_in": "scratch worktree",
+            "what_was_run": [f"(private worktree of /repo HEAD with the patch applied, copy of /verif pointing at it) ./check {r['check']} --tier {r['tier']} -> exit {r['exit']} ({r['summary']})" for r in results],
+            "caught_by": sorted({f"{r['check']}:{r['tier']}" for r in results if r["exit"] == 1}),
+            "first_reports": [f for r in results for f in r["firsts"]][:4],
+        }
+        json.dump(meta, open(meta_p, "w"), indent=1, ensure_ascii=False)
     return rc
 
 
